@@ -3,8 +3,16 @@
 // repo's working tree, 1..4 explicit MetricReader subclasses collected explicitly, driven by the op lines the Lean
 // model driver (lean/Driver/C17.lean) also reads.
 //
-//   obs cfg <D|C,...> ; create <oc|ou|og|sg> ; addcb <instr> <cb> ; rmcb <instr> <cb> ; destroy <instr> ;
+//   obs cfg <D|C,...> ; create <oc|ou|og|sg>[d] ; dup <instr> ; addcb <instr> <cb> ; rmcb <instr> <cb> ; destroy <instr> ;
 //       grec <instr> <attr> <value> ; collect <r> <cb>=<attr>:<value>,... ...
+//
+// `dup i`: a further handle for the observable instrument of handle i (same name, type, value type, creation form): the meter
+// gives it the storage the instrument already has; callbacks are registered, removed and cleaned up per handle.
+// A kind with the suffix `d` is the double flavour (CreateDoubleObservable* / CreateDoubleGauge, ObserverResultT<double>,
+// the double sum / last-value aggregations): the script's value v is observed as v * 2^-10 and printed as v again.
+// Instruments are created through the (name) / (name, description) / (name, description, unit) forms in rotation; the
+// callback rotates the three Observe(value, attributes) forms (KeyValueIterable, container template, initializer list)
+// and `grec` the Record forms with and without a Context.
 //
 // One C function is the callback of every registration; its state pointer identifies the callback `cb`.  The
 // script of a collection says what each callback observes in that cycle; every invocation is logged.
@@ -13,6 +21,7 @@
 // collection (the harness makes the system clock advance around every collection, so the windows are disjoint
 // and a clock tie cannot occur), "?" anything else.  Double values are fed as k * 2^-10 and printed as k.
 #include "common.h"
+#include "metrics_factories.h"
 
 #include <algorithm>
 #include <chrono>
@@ -84,21 +93,26 @@ struct World
   sdkm::MeterContext *ctx = nullptr;
   std::shared_ptr<sdkm::MeterProvider> provider;
   nostd::shared_ptr<apim::Meter> meter;
-  std::vector<std::string> kinds;
+  std::vector<std::string> kinds;  // oc | ou | og | sg
+  std::vector<bool> dbl;           // the double flavour
+  std::vector<size_t> canon;       // handle -> the handle that created its instrument (itself, unless made by `dup`)
+  size_t nobs = 0;                 // Observe / Record calls so far: the overload used rotates with it
   std::vector<nostd::shared_ptr<apim::ObservableInstrument>> obs;  // null for sync gauges / destroyed
 #if OPENTELEMETRY_ABI_VERSION_NO >= 2
   std::vector<nostd::unique_ptr<apim::Gauge<int64_t>>> gauges;
+  std::vector<nostd::unique_ptr<apim::Gauge<double>>> dgauges;
 #endif
   CbState cbs[8];
   std::map<int, std::vector<std::pair<long long, long long>>> script;
   std::vector<int> calls;
   std::vector<std::pair<TimeNs, TimeNs>> windows;
-  TimeNs sdk_start = 0;
+  TimeNs sdk_start = 0;            // exact, when the construction path used exposes the MeterContext
+  TimeNs sdk_lo = 0, sdk_hi = -1;   // else: the window in which the provider was constructed
 
   std::string ts(common::SystemTimestamp t) const
   {
     TimeNs v = t.time_since_epoch().count();
-    if (v == sdk_start) return "sdk";
+    if (ctx ? v == sdk_start : (sdk_lo < v && v <= sdk_hi)) return "sdk";
     for (size_t k = 0; k < windows.size(); k++)
       if (windows[k].first < v && v <= windows[k].second) return "#" + std::to_string(k + 1);
     return "?";
@@ -178,16 +192,41 @@ static void the_callback(apim::ObserverResult result, void *state)
   CbState *cb = static_cast<CbState *>(state);
   World &w    = *cb->w;
   w.calls.push_back(cb->id);
-  if (!nostd::holds_alternative<nostd::shared_ptr<apim::ObserverResultT<int64_t>>>(result)) return;
-  auto r  = nostd::get<nostd::shared_ptr<apim::ObserverResultT<int64_t>>>(result);
   auto it = w.script.find(cb->id);
   if (it == w.script.end()) return;
-  for (auto &av : it->second)
-  {
-    if (av.first == 0) r->Observe(static_cast<int64_t>(av.second));
-    else
-      with_attrs(av.first, [&](const common::KeyValueIterable &kv) { r->Observe(static_cast<int64_t>(av.second), kv); });
-  }
+  // Observe(value) for the empty set; for the others the three attribute forms of the API rotate: a KeyValueIterable,
+  // a container (the template overload) and an initializer list - they must all report the same measurement
+  auto observe_all = [&](auto r, auto conv) {
+    for (auto &av : it->second)
+    {
+      const long long a = av.first;
+      auto v            = conv(av.second);
+      if (a == 0) { r->Observe(v); continue; }
+      const size_t form = w.nobs++ % 3;
+      if (form == 0) with_attrs(a, [&](const common::KeyValueIterable &kv) { r->Observe(v, kv); });
+      else if (form == 1)
+      {
+        std::string s = "s" + std::to_string(a);
+        std::map<std::string, common::AttributeValue> m{{"k", static_cast<int64_t>(a)}};
+        if (a % 3 == 2) m["z"] = nostd::string_view(s);
+        else if (a % 3 == 0) m["b"] = true;
+        r->Observe(v, m);
+      }
+      else
+      {
+        std::string s = "s" + std::to_string(a);
+        if (a % 3 == 1) r->Observe(v, {{"k", static_cast<int64_t>(a)}});
+        else if (a % 3 == 2) r->Observe(v, {{"z", nostd::string_view(s)}, {"k", static_cast<int64_t>(a)}});
+        else r->Observe(v, {{"k", static_cast<int64_t>(a)}, {"b", true}});
+      }
+    }
+  };
+  if (nostd::holds_alternative<nostd::shared_ptr<apim::ObserverResultT<int64_t>>>(result))
+    observe_all(nostd::get<nostd::shared_ptr<apim::ObserverResultT<int64_t>>>(result),
+                [](long long v) { return static_cast<int64_t>(v); });
+  else if (nostd::holds_alternative<nostd::shared_ptr<apim::ObserverResultT<double>>>(result))
+    observe_all(nostd::get<nostd::shared_ptr<apim::ObserverResultT<double>>>(result),
+                [](long long v) { return static_cast<double>(v) / 1024.0; });
 }
 
 static std::string show_md(const World &w, const sdkm::MetricData &md)
@@ -201,9 +240,30 @@ static std::string show_md(const World &w, const sdkm::MetricData &md)
   else if (d.type_ == sdkm::InstrumentType::kGauge) { kind = "sg"; lv = true; }
   else kind = "?type";
   long long x;
+  const bool dbl = d.value_type_ == sdkm::InstrumentValueType::kDouble;
+  if (dbl) kind += "d";
   std::string s = (d.name_.size() >= 2 && d.name_[0] == 'o' && parse_nat(d.name_.substr(1), x))
                       ? std::to_string(x) + "." + kind
                       : "?name:" + d.name_;
+  if (s[0] != '?')
+  {
+    // created through the (name) / (name, description) / (name, description, unit) form number x % 3
+    const std::string want_desc = x % 3 >= 1 ? "d" + std::to_string(x) : "";
+    const std::string want_unit = x % 3 == 2 ? "By" : "";
+    if (d.description_ != want_desc) s = "?desc:" + d.description_;
+    else if (d.unit_ != want_unit) s = "?unit:" + d.unit_;
+  }
+  auto num = [dbl](const sdkm::ValueType &val) -> std::string {
+    if (dbl)
+    {
+      if (!nostd::holds_alternative<double>(val)) return "?vt";
+      double y = nostd::get<double>(val) * 1024.0;
+      if (std::floor(y) != y || std::fabs(y) > 1e15) return "?inexact";
+      return std::to_string(static_cast<long long>(y));
+    }
+    if (!nostd::holds_alternative<int64_t>(val)) return "?vt";
+    return std::to_string(static_cast<long long>(nostd::get<int64_t>(val)));
+  };
   s += md.aggregation_temporality == sdkm::AggregationTemporality::kDelta
            ? " D "
            : (md.aggregation_temporality == sdkm::AggregationTemporality::kCumulative ? " C " : " ? ");
@@ -220,8 +280,7 @@ static std::string show_md(const World &w, const sdkm::MetricData &md)
       {
         auto &lp = nostd::get<sdkm::LastValuePointData>(p.point_data);
         if (!lp.is_lastvalue_valid_) v = "?invalid";
-        else if (!nostd::holds_alternative<int64_t>(lp.value_)) v = "?vt";
-        else v = std::to_string(static_cast<long long>(nostd::get<int64_t>(lp.value_)));
+        else v = num(lp.value_);
       }
     }
     else
@@ -230,9 +289,8 @@ static std::string show_md(const World &w, const sdkm::MetricData &md)
       else
       {
         auto &sp = nostd::get<sdkm::SumPointData>(p.point_data);
-        if (sp.is_monotonic_ != (kind == "oc")) v = "?mono";
-        else if (!nostd::holds_alternative<int64_t>(sp.value_)) v = "?vt";
-        else v = std::to_string(static_cast<long long>(nostd::get<int64_t>(sp.value_)));
+        if (sp.is_monotonic_ != (kind == "oc" || kind == "ocd")) v = "?mono";
+        else v = num(sp.value_);
       }
     }
     long long key = a == "?" ? -1 : atoll(a.c_str());
@@ -270,6 +328,7 @@ static std::string handle_obs(const std::vector<std::string> &t)
   auto ops = vh::split_ops(t, 1);
   if (ops.empty() || ops[0].size() != 2 || ops[0][0] != "cfg") return "bad-op";
   World w;
+  const uint64_t hash = vhm::case_hash(t);
   for (int i = 0; i < 8; i++) w.cbs[i] = CbState{i, &w};
   std::vector<sdkm::AggregationTemporality> temps;
   for (auto &r : split(ops[0][1], ','))
@@ -280,11 +339,14 @@ static std::string handle_obs(const std::vector<std::string> &t)
   }
   if (temps.empty() || temps.size() > 4) return "bad-op";
   {
-    std::unique_ptr<sdkm::ViewRegistry> registry(new sdkm::ViewRegistry());
-    std::unique_ptr<sdkm::MeterContext> ctx(new sdkm::MeterContext(std::move(registry)));
-    w.ctx       = ctx.get();
-    w.sdk_start = w.ctx->GetSDKStartTime().time_since_epoch().count();
-    w.provider.reset(new sdkm::MeterProvider(std::move(ctx)));
+    // provider / context / registry through the constructors or the *Factory::Create overloads, chosen by the hash of the
+    // case text (metrics_factories.h)
+    w.sdk_lo = tick();
+    auto built = vhm::make_provider(hash, vhm::mix(hash, 1) % 2 ? vhm::make_registry(hash) : nullptr, nullptr, nullptr);
+    w.provider = built.provider;
+    w.ctx      = built.ctx;
+    w.sdk_hi   = tick();
+    if (w.ctx) w.sdk_start = w.ctx->GetSDKStartTime().time_since_epoch().count();
     for (auto tmp : temps)
     {
       auto r = std::make_shared<TestReader>(tmp);
@@ -302,7 +364,15 @@ static std::string handle_obs(const std::vector<std::string> &t)
     long long ins = 0, cb = 0;
     if (op.size() == 2 && op[0] == "create")
     {
+      const bool dbl = op[1].size() == 3 && op[1][2] == 'd';
+      if (dbl) op[1].pop_back();
+      if (op[1] != "oc" && op[1] != "ou" && op[1] != "og" && op[1] != "sg") return "bad-op";
       std::unique_ptr<std::string> name(new std::string("o" + std::to_string(w.kinds.size())));
+      const size_t variant = w.kinds.size() % 3;
+      std::unique_ptr<std::string> desc(new std::string("d" + std::to_string(w.kinds.size())));
+      std::unique_ptr<std::string> unit(new std::string("By"));
+      nostd::string_view ds(desc->data(), desc->size()), us(unit->data(), unit->size());
+#define CREATE(F) (variant == 0 ? w.meter->F(nm) : (variant == 1 ? w.meter->F(nm, ds) : w.meter->F(nm, ds, us)))
       nostd::string_view nm(name->data(), name->size());
       nostd::shared_ptr<apim::ObservableInstrument> o;
       if (w.kinds.size() % 2 == 1)
@@ -315,27 +385,58 @@ static std::string handle_obs(const std::vector<std::string> &t)
                                                         : sdkm::InstrumentType::kGauge;
         const sdkm::AggregationType ag =
             (op[1] == "oc" || op[1] == "ou") ? sdkm::AggregationType::kSum : sdkm::AggregationType::kLastValue;
-        std::unique_ptr<sdkm::InstrumentSelector> is(new sdkm::InstrumentSelector(ty, *name, ""));
-        std::unique_ptr<sdkm::MeterSelector> ms(new sdkm::MeterSelector("m", "", ""));
-        std::unique_ptr<sdkm::View> view(new sdkm::View("", "", "", ag));
+        auto is   = vhm::make_isel(vhm::mix(hash, 100 + w.kinds.size()), ty, *name, "");
+        auto ms   = vhm::make_msel(vhm::mix(hash, 200 + w.kinds.size()), "m", "", "");
+        auto view = vhm::make_view(vhm::mix(hash, 300 + w.kinds.size()), "", "", "", ag);
         w.provider->AddView(std::move(is), std::move(ms), std::move(view));
       }
-      if (op[1] == "oc") o = w.meter->CreateInt64ObservableCounter(nm);
-      else if (op[1] == "ou") o = w.meter->CreateInt64ObservableUpDownCounter(nm);
-      else if (op[1] == "og") o = w.meter->CreateInt64ObservableGauge(nm);
+      if (op[1] == "oc") o = dbl ? CREATE(CreateDoubleObservableCounter) : CREATE(CreateInt64ObservableCounter);
+      else if (op[1] == "ou") o = dbl ? CREATE(CreateDoubleObservableUpDownCounter) : CREATE(CreateInt64ObservableUpDownCounter);
+      else if (op[1] == "og") o = dbl ? CREATE(CreateDoubleObservableGauge) : CREATE(CreateInt64ObservableGauge);
       else if (op[1] == "sg")
       {
 #if OPENTELEMETRY_ABI_VERSION_NO >= 2
         w.gauges.resize(w.kinds.size() + 1);
-        w.gauges[w.kinds.size()] = w.meter->CreateInt64Gauge(nm);
+        w.dgauges.resize(w.kinds.size() + 1);
+        if (dbl) w.dgauges[w.kinds.size()] = CREATE(CreateDoubleGauge);
+        else w.gauges[w.kinds.size()] = CREATE(CreateInt64Gauge);
 #else
         return "bad-op";  // synchronous gauges exist under ABI v2 only
 #endif
       }
       else return "bad-op";
+#undef CREATE
       w.obs.push_back(o);
       outs.push_back("i" + std::to_string(w.kinds.size()));
       w.kinds.push_back(op[1]);
+      w.dbl.push_back(dbl);
+      w.canon.push_back(w.canon.size());
+    }
+    else if (op.size() == 2 && op[0] == "dup")
+    {
+      if (!parse_nat(op[1], ins) || static_cast<size_t>(ins) >= w.kinds.size() || w.kinds[ins] == "sg" || !w.obs[ins]) return "bad-op";
+      const size_t c0      = w.canon[ins];
+      const size_t variant = c0 % 3;
+      const bool dbl       = w.dbl[ins];
+      std::unique_ptr<std::string> name(new std::string("o" + std::to_string(c0)));
+      std::unique_ptr<std::string> desc(new std::string("d" + std::to_string(c0)));
+      std::unique_ptr<std::string> unit(new std::string("By"));
+      nostd::string_view nm(name->data(), name->size()), ds(desc->data(), desc->size()), us(unit->data(), unit->size());
+#define CREATE(F) (variant == 0 ? w.meter->F(nm) : (variant == 1 ? w.meter->F(nm, ds) : w.meter->F(nm, ds, us)))
+      nostd::shared_ptr<apim::ObservableInstrument> o;
+      if (w.kinds[ins] == "oc") o = dbl ? CREATE(CreateDoubleObservableCounter) : CREATE(CreateInt64ObservableCounter);
+      else if (w.kinds[ins] == "ou") o = dbl ? CREATE(CreateDoubleObservableUpDownCounter) : CREATE(CreateInt64ObservableUpDownCounter);
+      else o = dbl ? CREATE(CreateDoubleObservableGauge) : CREATE(CreateInt64ObservableGauge);
+#undef CREATE
+      w.obs.push_back(o);
+      outs.push_back("i" + std::to_string(w.kinds.size()));
+      w.kinds.push_back(w.kinds[ins]);
+      w.dbl.push_back(dbl);
+      w.canon.push_back(c0);
+#if OPENTELEMETRY_ABI_VERSION_NO >= 2
+      w.gauges.resize(w.kinds.size());
+      w.dgauges.resize(w.kinds.size());
+#endif
     }
     else if (op.size() == 3 && (op[0] == "addcb" || op[0] == "rmcb"))
     {
@@ -364,9 +465,49 @@ static std::string handle_obs(const std::vector<std::string> &t)
         return "bad-op";
 #if OPENTELEMETRY_ABI_VERSION_NO >= 2
       tick();
-      if (a == 0) w.gauges[ins]->Record(static_cast<int64_t>(v));
-      else
-        with_attrs(a, [&](const common::KeyValueIterable &kv) { w.gauges[ins]->Record(static_cast<int64_t>(v), kv); });
+      // Record(value) / Record(value, context) / Record(value, attributes) / Record(value, attributes, context) in rotation
+      const size_t nth  = w.nobs++;
+      const size_t form = nth % 2;        // without / with a Context
+      const size_t how  = (nth / 2) % 3;  // attributes as KeyValueIterable / container (template overload) / initializer list
+      opentelemetry::context::Context octx{};
+      auto rec = [&](auto &g, auto val) {
+        std::string sval = "s" + std::to_string(a);
+        if (a == 0)
+        {
+          if (form == 0) g->Record(val);
+          else g->Record(val, octx);
+        }
+        else if (how == 0)
+          with_attrs(a, [&](const common::KeyValueIterable &kv) {
+            if (form == 0) g->Record(val, kv);
+            else g->Record(val, kv, octx);
+          });
+        else if (how == 1)
+        {
+          std::map<std::string, common::AttributeValue> m{{"k", static_cast<int64_t>(a)}};
+          if (a % 3 == 2) m["z"] = nostd::string_view(sval);
+          else if (a % 3 == 0) m["b"] = true;
+          if (form == 0) g->Record(val, m);
+          else g->Record(val, m, octx);
+        }
+        else if (a % 3 == 1)
+        {
+          if (form == 0) g->Record(val, {{"k", static_cast<int64_t>(a)}});
+          else g->Record(val, {{"k", static_cast<int64_t>(a)}}, octx);
+        }
+        else if (a % 3 == 2)
+        {
+          if (form == 0) g->Record(val, {{"z", nostd::string_view(sval)}, {"k", static_cast<int64_t>(a)}});
+          else g->Record(val, {{"z", nostd::string_view(sval)}, {"k", static_cast<int64_t>(a)}}, octx);
+        }
+        else
+        {
+          if (form == 0) g->Record(val, {{"k", static_cast<int64_t>(a)}, {"b", true}});
+          else g->Record(val, {{"k", static_cast<int64_t>(a)}, {"b", true}}, octx);
+        }
+      };
+      if (w.dbl[ins]) rec(w.dgauges[ins], static_cast<double>(v) / 1024.0);
+      else rec(w.gauges[ins], static_cast<int64_t>(v));
       tick();
       outs.push_back("ok");
 #else
